@@ -4,6 +4,7 @@ import (
 	"fmt"
 	"os"
 	"path/filepath"
+	"regexp"
 	"runtime"
 	"sort"
 	"strings"
@@ -55,9 +56,27 @@ func errClass(e string) string {
 	}
 }
 
-type stepRec struct {
-	op  *Op
-	res TxResult
+// failure reasons of the executed transactions (evidence only): kind -> reason -> count
+var (
+	reasonMu sync.Mutex
+	reasons  = map[string]map[string]int{}
+	digits   = regexp.MustCompile(`[0-9]+`)
+)
+
+func noteReason(kind, err string) {
+	const marker = "Native serivce function execute error!: "
+	if i := strings.LastIndex(err, marker); i >= 0 {
+		err = err[i+len(marker):]
+	}
+	err = digits.ReplaceAllString(short(err, 90), "#")
+	reasonMu.Lock()
+	if reasons[kind] == nil {
+		reasons[kind] = map[string]int{}
+	}
+	if len(reasons[kind]) < 40 || reasons[kind][err] > 0 {
+		reasons[kind][err]++
+	}
+	reasonMu.Unlock()
 }
 
 // runHistory drives one history on `primary` (and in lockstep on `twin` when given).
@@ -99,6 +118,9 @@ func runHistory(r *vf.Run, cfg Cfg, w *World, tag string, rng *vf.RNG, primary, 
 		r.Count("op/" + op.Kind + "/" + outcome)
 		r.Count("variant/" + op.Variant + "/" + outcome)
 		r.Count("engine/" + engine + "/ops")
+		if !res.OK {
+			noteReason(op.Kind, res.Err)
+		}
 		if c := errClass(res.Err); c == "heightGate" {
 			r.Count("fail/height_gate")
 		}
@@ -235,7 +257,9 @@ func Run(r *vf.Run, cfg Cfg) {
 		go func(i int, w *World) {
 			defer wg.Done()
 			sub := rng.Sub(uint64(1_000_000 + i))
-			runHistory(r, cfg, w, fmt.Sprintf("ledger-%d", i), sub, &LEngine{C: w.Chain}, NewVEngine(w), true, w.BootHeight)
+			twin := NewVEngine(w)
+			defer twin.Close()
+			runHistory(r, cfg, w, fmt.Sprintf("ledger-%d", i), sub, &LEngine{C: w.Chain}, twin, true, w.BootHeight)
 		}(i, w)
 	}
 	wg.Wait()
@@ -260,7 +284,9 @@ func Run(r *vf.Run, cfg Cfg) {
 		if zero != nil && i%25 == 24 {
 			w = zero
 		}
-		runHistory(r, cfg, w, fmt.Sprintf("hist-%d", i), sub, NewVEngine(w), nil, false, startHeight(sub))
+		e := NewVEngine(w)
+		defer e.Close()
+		runHistory(r, cfg, w, fmt.Sprintf("hist-%d", i), sub, e, nil, false, startHeight(sub))
 	})
 	summarise(r, cfg)
 }
@@ -315,6 +341,9 @@ func summarise(r *vf.Run, cfg Cfg) {
 	}
 	sort.Strings(mism)
 	r.Extra("generator_label_mismatches", mism)
+	reasonMu.Lock()
+	r.Extra("failure_reasons", reasons)
+	reasonMu.Unlock()
 
 	r.Extra("driven_operations", "all governance methods except initConfig (genesis only), updateSplitCurve and setPromisePos are issued as signed invoke transactions; "+
 		"approveCandidate/rejectCandidate/unRegisterCandidate always fail on the solo network id (RegisterCandidateStatus only exists below GetSelfGovRegisterHeight()=0: registerCandidate approves immediately and needs no ONT ID token). "+
